@@ -259,9 +259,9 @@ func (e *eventV1) Sign(signingName string, keyID KeyID, privateKey ed25519.Priva
 		// This is unreachable for events created with EventBuilder.Build or NewEventFromUntrustedJSON
 		panic(fmt.Errorf("gomatrixserverlib: invalid event %v (%q)", err, string(e.eventJSON)))
 	}
-	res := &e
-	(*res).eventJSON = eventJSON
-	return *res
+	result := *e
+	result.eventJSON = eventJSON
+	return &result
 }
 
 func (e *eventV1) Depth() int64 {
